@@ -340,7 +340,7 @@ def rule_handle(ctx):
                 dest = alloc_destination(f, defs, t)
                 ctx.ok(rid, "alloc-site:%s->%s" % (f.path, dest), "handle of alloc::<%s> ends in %s" % (c["args"][0] if c["args"] else "?", dest), fn=f,
                        nontrivial=True)
-    ctx.floor(rid + ".alloc-sites", 8)
+    ctx.floor(rid + ".alloc-sites", 6)
 
 
 def provably_empty(f, defs, l, dropbb):
